@@ -70,6 +70,7 @@ type Exec struct {
 	initRun  map[*ssa.Package]bool
 	lenBounds map[int]int64
 	exactFromHex bool
+	onceDone map[*Cell]bool
 	syncMaps map[*Cell]*MapV
 	namePrefix string
 	prefixStack []string
@@ -1483,7 +1484,7 @@ func (e *Exec) appendBuiltin(c *ssa.CallCommon, args []Value) Value {
 		if !ok {
 			e.fail("append []byte with %T", args[1])
 		}
-		return e.concatBytes(a, b, false)
+		return e.appendBytes(a, b)
 	case *GSliceV:
 		b, ok := args[1].(*GSliceV)
 		if !ok {
